@@ -438,6 +438,13 @@ func Monitor(rc *RunCtx, l *Ledger, pop *Population, o *Op, r *OpResult, step in
 			if dt == DomAttester || dt == DomProposer {
 				rc.Violate("C05", "generic-endpoint-slashable-domain", fmt.Sprintf("%s position %d signed under domain type %x", o, i, dt), step)
 			}
+			// What a verifier sees is the 64 signed bytes, read as root then domain, whatever the lengths of the two fields were.
+			if len(e.Data)+len(e.Domain) == 64 && len(e.Domain) != 32 {
+				buf := append(append([]byte{}, e.Data...), e.Domain...)
+				if vt := domType(buf[32:]); (vt == DomAttester || vt == DomProposer) && VerifySig(a.PubKey, r.Sigs[i], buf[:32], buf[32:]) {
+					rc.Violate("C05", "generic-signature-valid-under-slashable-domain", fmt.Sprintf("%s position %d: %d data bytes and %d domain bytes were signed, and the signature verifies for root %x under domain type %x", o, i, len(e.Data), len(e.Domain), buf[:4], vt), step)
+				}
+			}
 		}
 	}
 }
